@@ -73,16 +73,31 @@ def parse(out):
     return res
 
 
+# modules whose items are cut verbatim from /repo by kani/gen_<module>.py on every run (cargo feature of the same name)
+GENERATED = ('linegen', 'exprw')
+
+
 def run_harnesses(names, jobs=8, timeout=3000, per_harness_timeout=1500):
     """run harnesses in parallel; under -j Kani's per-harness output is interleaved, so the verdict is taken from the
     summary (`Complete - N successfully verified harnesses, F failures, T total` + `Verification failed for - <name>`);
     each failing harness is then re-run alone to classify it (assertion failure vs. CBMC limit) and collect its output."""
     meta = harness_meta()
     groups = {}
+    allres = {}
+    gen_state = {}
     for n in names:
         flags = tuple(meta.get(n, {}).get('flags', []))
+        mod = meta.get(n, {}).get('module')
+        if mod in GENERATED:
+            # extraction-to-Kani: regenerate the verbatim items from /repo first (DESIGN 3.2); a lost anchor is a tool limit
+            if mod not in gen_state:
+                p = subprocess.run(['python3', os.path.join(KDIR, f'gen_{mod}.py'), '--quiet'], capture_output=True, text=True)
+                gen_state[mod] = (p.returncode, (p.stdout + p.stderr)[-400:])
+            if gen_state[mod][0] != 0:
+                allres[n] = {'status': 'build', 'detail': f'gen_{mod}.py failed (lost anchor?): ' + gen_state[mod][1]}
+                continue
+            flags = flags + ('--features', mod)
         groups.setdefault(flags, []).append(n)
-    allres = {}
     for flags, hs in groups.items():
         cmd = ['cargo', 'kani', '--output-format', 'terse', '-j', str(jobs), '-Z', 'unstable-options',
                '--harness-timeout', f'{per_harness_timeout}s'] + list(flags)
@@ -118,8 +133,9 @@ def run_harnesses(names, jobs=8, timeout=3000, per_harness_timeout=1500):
 def playback(harness, timeout=1800):
     """run one failing harness with concrete playback; returns the generated unit test text (or None)"""
     meta = harness_meta().get(harness, {})
+    extra = ['--features', meta['module']] if meta.get('module') in GENERATED else []
     cmd = ['cargo', 'kani', '--output-format', 'terse', '-Z', 'concrete-playback', '--concrete-playback=print',
-           '--harness', harness] + list(meta.get('flags', []))
+           '--harness', harness] + list(meta.get('flags', [])) + extra
     rc, out, dt = _run(cmd, timeout)
     m = re.search(r'(#\[test\]\s*fn kani_concrete_playback_\w+\(\) \{.*?\n\})', out, re.S)
     if not m:
@@ -138,7 +154,7 @@ def native_replay(harness, cex, timeout=1200):
     with open(modfile, 'a') as f:
         f.write('\n' + cex['test'] + '\n')
     tname = re.search(r'fn (kani_concrete_playback_\w+)', cex['test']).group(1)
-    cmd = ['cargo', 'kani', 'playback', '-Z', 'concrete-playback', '--', tname]
+    cmd = ['cargo', 'kani', 'playback', '-Z', 'concrete-playback'] + (['--features', cex['module']] if cex.get('module') in GENERATED else []) + ['--', tname]
     rc, out, dt = _run(cmd, timeout, cwd=work)
     panicked = re.search(r"panicked at ([^\n]*)\n([^\n]*)", out)
     res = {'reproduced': bool(panicked) or 'test result: FAILED' in out, 'panic': (panicked.group(1) + ' ' + panicked.group(2)) if panicked else None,
